@@ -46,6 +46,11 @@ def run(ctx, col, tier):
     col.rule("R-LIMIT", "branching-limit table over (child count ? limit) x root x exempt: a point is "
              "closed for further children iff the limit is on, its count reached the limit and it is "
              "not an exempt root", floor=12, exhaustive=True)
+    col.rule("R-MASK", "excluded pairs cannot win the arg-min: the cost is a masked array, or the "
+             "mask is applied with an infinite sentinel (a finite sentinel computed from the edge "
+             "lengths alone is exceeded by edge + factor x path length)", floor=1)
+    col.rule("R-ACC", "the accumulated path length is a float array of its own (its dtype does not "
+             "follow the input points): lengths are not truncated for integer coordinates", floor=1)
     col.rule("R-CONST", "PointsToMST is the balanced variant with the constant factor 0", floor=1)
     col.not_decided += ["minimality of the total length, the greedy selection over the run-time cost matrix, "
                         "mask bookkeeping as values: no sound static argument in reach"]
@@ -90,6 +95,52 @@ def run(ctx, col, tier):
               f"{why}, i.e. with the {'child' if axis != parent_axis else 'parent'} index `{ax1 if axis == 1 else ax0}`; "
               f"the accumulated length of a not yet connected point is still 0, so the balancing factor has no effect",
               why, stmt="alignment", facts={"parent_axis": parent_axis, "term": norm_src(bal)})
+    # masking of excluded pairs
+    cv = cost[0].value
+    fn = dotted(cv.func) if isinstance(cv, ast.Call) else None
+    if fn in ("ma.array", "np.ma.array", "ma.masked_array", "np.ma.masked_array", "ma.MaskedArray", "np.ma.MaskedArray") and kwarg(cv, "mask") is not None:
+        col.check(norm_src(kwarg(cv, "mask")) == "mask", "R-MASK", q, d.loc(cost[0]), "arg-min over a masked array (masked cells never win)",
+                  norm_src(cv)[:80], f"mask argument is `{norm_src(kwarg(cv, 'mask'))}`", stmt="mask")
+    elif fn in ("np.where", "numpy.where") and len(cv.args) == 3:
+        sent = cv.args[1]
+        sname = norm_src(sent)
+        defs = [n.value for n in own_nodes(d) if isinstance(n, ast.Assign) and norm_src(n.targets[0]) == sname] if isinstance(sent, ast.Name) else [sent]
+        txt = " ".join(norm_src(x) for x in defs)
+        infinite = any(t in txt for t in ("np.inf", "math.inf", "float('inf')", "np.finfo", "sys.float_info.max", "np.Inf"))
+        mentions_path = acc_name is not None and any(isinstance(x, ast.Name) and x.id == acc_name for v in defs for x in ast.walk(v))
+        if norm_src(cv.args[0]) != "mask":
+            col.unresolved("R-MASK", q, d.loc(cost[0]), "excluded pairs cannot win the arg-min", f"`{norm_src(cv)[:80]}` not understood", stmt="mask")
+        elif infinite:
+            col.ok("R-MASK", q, d.loc(cost[0]), "excluded pairs get an infinite cost", txt[:80], stmt="mask")
+        elif not mentions_path:
+            col.bad("R-MASK", q, d.loc(cost[0]), "excluded pairs cannot win the arg-min",
+                    f"excluded pairs get the finite cost `{txt[:60]}`, which does not grow with the accumulated path length: once "
+                    f"edge + factor x path length of every admissible pair exceeds it, an excluded pair (e.g. the root with itself) "
+                    f"wins the arg-min", stmt="mask")
+        else:
+            col.unresolved("R-MASK", q, d.loc(cost[0]), "excluded pairs cannot win the arg-min", f"finite sentinel `{txt[:60]}`: dominance not decided", stmt="mask")
+    else:
+        col.unresolved("R-MASK", q, d.loc(cost[0]), "excluded pairs cannot win the arg-min", f"`{norm_src(cv)[:80]}` is neither a masked array nor np.where(mask, ...)", stmt="mask")
+    # accumulator allocation
+    alloc = [n for n in own_nodes(d) if isinstance(n, ast.Assign) and norm_src(n.targets[0]) == acc_name]
+    if len(alloc) == 1 and isinstance(alloc[0].value, ast.Call):
+        a = alloc[0].value
+        an = dotted(a.func) or ""
+        dt = kwarg(a, "dtype")
+        floaty = dt is not None and any(t in norm_src(dt) for t in ("float", "np.double"))
+        if an in ("np.zeros", "np.empty", "np.full") and (dt is None or floaty):
+            col.ok("R-ACC", q, d.loc(alloc[0]), "path-length accumulator is a float array of its own", norm_src(a), stmt="acc-alloc")
+        elif an.endswith("_like") and not floaty:
+            col.bad("R-ACC", q, d.loc(alloc[0]), "path-length accumulator is a float array of its own",
+                    f"`{norm_src(alloc[0])}` gives the accumulator the dtype of the input points: for integer coordinates "
+                    f"every accumulated length is truncated and the attachment rule edge + factor x path length is evaluated on wrong lengths",
+                    stmt="acc-alloc")
+        elif dt is not None and not floaty:
+            col.bad("R-ACC", q, d.loc(alloc[0]), "path-length accumulator is a float array of its own", f"dtype `{norm_src(dt)}` is not floating", stmt="acc-alloc")
+        else:
+            col.unresolved("R-ACC", q, d.loc(alloc[0]), "path-length accumulator is a float array of its own", norm_src(a), stmt="acc-alloc")
+    else:
+        col.unresolved("R-ACC", q, d.loc(), "path-length accumulator is a float array of its own", "allocation not found", stmt="acc-alloc")
     # roles
     src = [norm_src(s) for s in ast.walk(d.node) if isinstance(s, (ast.Assign, ast.AugAssign))]
     R = "R-ROLES"
